@@ -3,9 +3,10 @@ import Chewing.Proofs.TrieLookup
 import Chewing.Proofs.TrieSpec
 /-!
 `lookup_first_n_phrases` / `lookup_first_phrase` on a written file: the threads' leaves are appended
-one whole leaf at a time until more than `first` phrases are held (`cutoff`).  So the result is a
-prefix of `lookup_all_phrases` that is either all of it or longer than `first`; it is never cut
-inside a leaf (in particular a standard lookup, which has one thread, returns the whole leaf).
+one whole leaf at a time until more than `first` phrases are held (`cutoff`), then the vector is
+truncated to `first` (`result.truncate(first)`).  The loop's result is a prefix of
+`lookup_all_phrases` that is either all of it or longer than `first`, so after the truncation the
+result is exactly the first `first` phrases of `lookup_all_phrases` (`lookupFirstN_eq_take`).
 -/
 namespace Chewing.TrieCodec
 open Chewing Chewing.Der
@@ -54,36 +55,13 @@ theorem cutoff_all {first : Nat} {gs : List (List Phrase)} {acc : List Phrase}
     simp only [List.length_append] at this h
     omega
 
-/-- with a single thread the whole leaf is returned whatever `first` is -/
-theorem cutoff_single (first : Nat) (g : List Phrase) : cutoff first [] [g] = g := by
-  simp only [cutoff, List.nil_append]
-  split <;> rfl
-
-theorem cutoff_le_one (first : Nat) {gs : List (List Phrase)} (h : gs.length ≤ 1) :
-    cutoff first [] gs = gs.flatten := by
-  match gs, h with
-  | [], _ => rfl
-  | [g], _ => simp [cutoff_single]
-
-/-- an exact lookup has at most one thread -/
-theorem tWalk_standard_le_one (key : List Nat) (hkey : ∀ s ∈ key, s ≠ 0) :
-    ∀ (s : Nat) (l : Option (List Phrase)) (sub : Forest), sub.WF →
-      (tWalk .standard key [.node s l sub]).length ≤ 1 := by
-  induction key with
-  | nil => intro s l sub _; simp [tWalk]
-  | cons s' rest ih =>
-    intro s l sub hw
-    have hstep : tStep .standard s' [Item.node s l sub] =
-        match sub.child s' with
-        | some nd => [.node s' nd.1 nd.2]
-        | none => [] := by
-      simp only [tStep, List.flatMap_cons, List.flatMap_nil, List.append_nil, Item.kids]
-      exact filter_kidsOf_standard (hkey s' (by simp)) hw
-    simp only [tWalk, hstep]
-    cases hc : sub.child s' with
-    | none => simp [tWalk_nil]
-    | some nd =>
-      exact ih (fun t ht => hkey t (by simp [ht])) s' nd.1 nd.2 (child_WF hw hc).1.2.2
+/-- the loop followed by `truncate(first)`: exactly the first `first` phrases of everything -/
+theorem cutoff_take (first : Nat) (gs : List (List Phrase)) (acc : List Phrase) :
+    (cutoff first acc gs).take first = (acc ++ gs.flatten).take first := by
+  rcases cutoff_all_or_more first gs acc with h | h
+  · rw [h]
+  · obtain ⟨rest, h2⟩ := cutoff_prefix first gs acc
+    rw [h2, List.take_append_of_le_length (Nat.le_of_lt h)]
 
 theorem collectN_rep {recs : List Rec} {data : Bytes} {views : List Rec} {items : List Item} (first : Nat)
     (h : Forall₂ (Rep recs data) views items) :
@@ -160,12 +138,12 @@ theorem collectN_rep {recs : List Rec} {data : Bytes} {views : List Rec} {items 
               rw [if_neg (by omega)]
 
 /-- **`lookup_first_n_phrases` on a written file**: the leaves of the nodes the key reaches, appended
-    until more than `first` phrases are held -/
+    until more than `first` phrases are held, then truncated to `first` -/
 theorem lookupFirstN_eq_cutoff {recs : List Rec} {data : Bytes} {info : Info} {root : Item}
     (hl : Laid recs data 0 root) (hp : root.Pre) (hroot : ∃ l sub, root = .node 0 l sub)
     (st : Strategy) (key : List Nat) (hkey : ∀ s ∈ key, s ≠ 0) (first : Nat) :
     lookupFirstN { info := info, index := recs.flatMap recBytes, data := data } key first st =
-      cutoff first [] ((tWalk st key [root]).map Item.leafPhrases) := by
+      (cutoff first [] ((tWalk st key [root]).map Item.leafPhrases)).take first := by
   obtain ⟨l, sub, rfl⟩ := hroot
   obtain ⟨r, hr1, hr2, hr3, hr4, hr5⟩ := laid_rec hl hp
   have hv : viewAt (recs.flatMap recBytes) 0 = r := by
@@ -208,5 +186,15 @@ theorem lookupFirstN_eq_cutoff {recs : List Rec} {data : Bytes} {info : Info} {r
         rw [hwalk] at hw
         simp only at hw ⊢
         rw [collectN_rep first hw [] (by simp)]
+
+/-- **first n = prefix of the full result**: on a written file `lookup_first_n_phrases(key, n, st)`
+    is exactly the first `n` phrases of `lookup_all_phrases(key, st)`, for both strategies -/
+theorem lookupFirstN_eq_take {recs : List Rec} {data : Bytes} {info : Info} {root : Item}
+    (hl : Laid recs data 0 root) (hp : root.Pre) (hroot : ∃ l sub, root = .node 0 l sub)
+    (st : Strategy) (key : List Nat) (hkey : ∀ s ∈ key, s ≠ 0) (first : Nat) :
+    lookupFirstN { info := info, index := recs.flatMap recBytes, data := data } key first st =
+      (lookupAll { info := info, index := recs.flatMap recBytes, data := data } key st).take first := by
+  rw [lookupFirstN_eq_cutoff hl hp hroot st key hkey first, lookupAll_eq_tLookup hl hp hroot st key hkey,
+    tLookup, List.flatMap_def, cutoff_take, List.nil_append]
 
 end Chewing.TrieCodec
